@@ -210,6 +210,8 @@ def check_one_step(ctx, kind, m, subs, bnds, label, order=1, disjoint=True):
     nvr = int(np.max(r.t)) + 1 if order == 2 else r.p.shape[1]
     if order == 1 and not r.is_valid():
         ctx.fail(f'uniform-invalid:{cname}', 'refined mesh fails is_valid()', data)
+    if order == 2 and not r.is_valid():      # is_valid supports quadratic meshes since N38
+        ctx.fail(f'uniform-invalid:{cname}', 'refined second-order mesh fails is_valid()', data)
     st = ex.Step(kind, m.p[:, :nv], m.t, r.p[:, :nvr], r.t, uniform=True, disjoint=disjoint)
     ctx.count(('step', kind, cname, m.p.tolist(), m.t.tolist(), sorted((k, v.tolist()) for k, v in tags_s.items()),
                sorted((k, v.tolist()) for k, v in tags_b.items())),
@@ -306,7 +308,13 @@ def oracle_case(ctx, kind, g, rng, kmax, op, order=1):
         if bnds:
             mm = mm.with_boundaries(bnds)
         with WarnCatcher():
-            rk = mm.refined(len(chain))
+            try:
+                # every scalar (also a NumPy integer) is a number of uniform refinements
+                rk = mm.refined(np.int64(len(chain)) if rng.random() < 0.5 else len(chain))
+            except Exception as e:
+                ctx.fail(f'uniform-refined-k-exception:{type(m).__name__}', f'refined(k) raised {type(e).__name__}: {e}',
+                         case_data(kind, m, op=op, k=len(chain)))
+                return
         last = chain[-1]
         same = np.array_equal(rk.p, last.p) and np.array_equal(rk.t, last.t)
         for attr in ('subdomains', 'boundaries'):
@@ -343,6 +351,18 @@ def run_oracle(ctx):
                 oracle_case(ctx, kind, g, rng, 1 if kind in ('tet', 'hex') else 2, 'none', order=2)
     # the documented small examples
     import skfem
+    for cls in (skfem.MeshLine, skfem.MeshTri, skfem.MeshQuad, skfem.MeshTet, skfem.MeshHex):
+        m0 = cls()
+        try:
+            a, b = m0.refined(np.int64(1)), m0.refined(1)
+            same = np.array_equal(a.p, b.p) and np.array_equal(a.t, b.t)
+        except Exception as e:
+            same = False
+        ctx.count(('numpy-scalar', cls.__name__), nontrivial=False)
+        if not same:
+            ctx.fail(f'uniform-numpy-scalar:{type(m0).__name__}', 'refined(np.int64(1)) is not one uniform refinement',
+                     case_data({'MeshLine1': 'line', 'MeshTri1': 'tri', 'MeshQuad1': 'quad', 'MeshTet1': 'tet',
+                                'MeshHex1': 'hex'}[type(m0).__name__], m0, k='np.int64(1)'))
     m = skfem.MeshLine(np.array([0., 1, 2, 3]))
     check_one_step(ctx, 'line', m, {'a': [0]}, {}, 'F3-example')
     m = skfem.MeshTet.init_tensor(np.array([0., 1, 3]), np.array([0., 2, 3]), np.array([0., 1, 2]))
